@@ -4,8 +4,8 @@ import json, os
 HERE = os.path.dirname(os.path.dirname(os.path.abspath(__file__)))
 BASE_NOTE = ("Trusted: Coq 8.16.1 kernel incl. vm_compute (no native_compute); no axioms (every Print Assumptions must say "
              "'Closed under the global context'); the Gallina model is tied to /repo on every invocation by (G) definitions regenerated from the "
-             "current source text by seven fail-closed translators (index arithmetic, float formulas as rationals, the numba kernels compiled to "
-             "folds, the vectorised gridmatching formulas, the full_match loop and _tumble, the per-frame UDF glue, the dtype decisions) with bridge lemmas re-proved against them, and by (K) the "
+             "current source text by eight fail-closed translators (index arithmetic, float formulas as rationals, the numba kernels compiled to "
+             "folds, the vectorised gridmatching formulas, the full_match loop and _tumble, the per-frame UDF glue, the dtype decisions, the sparse stacks) with bridge lemmas re-proved against them, and by (K) the "
              "correspondence run (model under vm_compute vs implementation on the same inputs); harness (generators, exact float->Z/Q "
              "conversion, parser, comparator tolerances, translators); numpy FFT/log/sqrt/solve/lstsq are modelled by their mathematical meaning, not verified. ")
 CHECKS = {}
